@@ -18,7 +18,7 @@ CONFIG = 'crates/anemo/src/config.rs'
 TYPES = P.TYPES
 TIMEOUT = 600
 # vacuity guard: cover points that must be reached: history: an add onto an existing entry; ticks: a dial, a re-dial after 1 failure, after 2
-COVER = {'active_peers_history': [0, 1, 2], 'who_is_dialed': [0], 'background_dialing_ticks': [0, 1, 3, 4], 'dial_races_inbound_connect': [0, 3, 5], 'closed_connection_bookkeeping': [0, 1, 2], 'mutual_dial_through_manager': [0, 1], 'known_peers_change_during_dial': [0, 6, 7]}
+COVER = {'active_peers_history': [0, 1, 2], 'who_is_dialed': [0, 1], 'background_dialing_ticks': [0, 1, 3, 4], 'dial_races_inbound_connect': [0, 3, 5], 'closed_connection_bookkeeping': [0, 1, 2], 'mutual_dial_through_manager': [0, 1], 'known_peers_change_during_dial': [0, 6, 7]}
 
 PRELUDE = r'''// GENERATED on every run by /verif/vc from /repo's working tree -- do not edit
 #![allow(dead_code, unused, non_upper_case_globals, non_camel_case_types, static_mut_refs)]
@@ -84,7 +84,16 @@ impl<K: PartialEq, V> HashMap<K, V> {
         while i < self.items.len() { let keep = { let kv = &mut self.items[i]; f(&kv.0, &mut kv.1) }; if keep { i += 1; } else { self.items.remove(i); } }
     }
     pub fn entry(&mut self, k: K) -> Entry<'_, K, V> { match self.pos(&k) { Some(i) => Entry::Occupied(hash_map::OccupiedEntry { map: self, idx: i }), None => Entry::Vacant(hash_map::VacantEntry { map: self, key: k }) } }
+    // (more of std's API, for edits that reach for it)
+    pub fn drain(&mut self) -> std::vec::IntoIter<(K, V)> { std::mem::take(&mut self.items).into_iter() }
+    pub fn into_keys(self) -> impl Iterator<Item = K> { self.items.into_iter().map(|kv| kv.0) }
+    pub fn into_values(self) -> impl Iterator<Item = V> { self.items.into_iter().map(|kv| kv.1) }
+    pub fn extend<I: IntoIterator<Item = (K, V)>>(&mut self, it: I) { for (k, v) in it { self.insert(k, v); } }
 }
+impl<K, V> IntoIterator for HashMap<K, V> { type Item = (K, V); type IntoIter = std::vec::IntoIter<(K, V)>; fn into_iter(self) -> Self::IntoIter { self.items.into_iter() } }
+impl<'a, K, V> IntoIterator for &'a HashMap<K, V> { type Item = (&'a K, &'a V); type IntoIter = std::iter::Map<std::slice::Iter<'a, (K, V)>, fn(&'a (K, V)) -> (&'a K, &'a V)>; fn into_iter(self) -> Self::IntoIter { fn split<'b, A, B>(kv: &'b (A, B)) -> (&'b A, &'b B) { (&kv.0, &kv.1) } self.items.iter().map(split::<K, V> as fn(&'a (K, V)) -> (&'a K, &'a V)) } }
+impl<'a, K, V> IntoIterator for &'a mut HashMap<K, V> { type Item = (&'a K, &'a mut V); type IntoIter = std::iter::Map<std::slice::IterMut<'a, (K, V)>, fn(&'a mut (K, V)) -> (&'a K, &'a mut V)>; fn into_iter(self) -> Self::IntoIter { fn split<'b, A, B>(kv: &'b mut (A, B)) -> (&'b A, &'b mut B) { (&kv.0, &mut kv.1) } self.items.iter_mut().map(split::<K, V> as fn(&'a mut (K, V)) -> (&'a K, &'a mut V)) } }
+impl<K: PartialEq, V> FromIterator<(K, V)> for HashMap<K, V> { fn from_iter<I: IntoIterator<Item = (K, V)>>(it: I) -> Self { let mut m = HashMap::new(); for (k, v) in it { m.insert(k, v); } m } }
 // std::sync::RwLock with the number of acquisitions made observable (single-threaded: a RefCell)
 pub struct RwLock<T> { pub cell: std::cell::RefCell<T>, pub acquisitions: std::cell::Cell<u32> }
 pub type RwLockReadGuard<'a, T> = std::cell::Ref<'a, T>;
@@ -264,6 +273,7 @@ pub mod harness {
     const ME: PeerId = PeerId([9; 32]);
     const P1: PeerId = PeerId([1; 32]);
     const P2: PeerId = PeerId([2; 32]);
+    const P3: PeerId = PeerId([3; 32]);
     fn conn(sid: usize, peer: PeerId, orig: ConnectionOrigin) -> Connection { Connection { sid, peer, orig } }
     fn any_origin(ch: &mut Chooser) -> ConnectionOrigin { if ch.any_bool() { ConnectionOrigin::Inbound } else { ConnectionOrigin::Outbound } }
     fn any_affinity(ch: &mut Chooser) -> PeerAffinity { let a = ch.below(3); if a == 0 { PeerAffinity::High } else if a == 1 { PeerAffinity::Allowed } else { PeerAffinity::Never } }
@@ -398,18 +408,21 @@ pub mod harness {
         while i < cm.pending_connections.tasks.len() { if let Task::Dial { address, peer_id, .. } = &cm.pending_connections.tasks[i] { v.push((address.0, peer_id.unwrap())); } i += 1; }
         v
     }
-    pub fn who_is_dialed(ch: &mut Chooser) { // @EOBL [C13] @BOUNDED one connectivity check over every table of 2 known peers (each High / Allowed / Never, 0..2 addresses, the first possibly ourselves, the second possibly already connected), cap 1 or 100: exactly the peers the statement names are dialed (never ourselves, Allowed / Never peers, peers without address, connected peers), at their first address
+    pub fn who_is_dialed(ch: &mut Chooser) { // @EOBL [C13,C10] @BOUNDED one connectivity check over every table of 2 known peers (each High / Allowed / Never, 0..2 addresses, the first possibly ourselves, the second possibly already connected), cap 1 or 100, no connection limit or a limit of 0 / 1 / 2 with or without an unrelated peer holding a connection (background dials to High-affinity peers are never blocked by the connection limit): exactly the peers the statement names are dialed (never ourselves, Allowed / Never peers, peers without address, connected peers), at their first address
         let cap: usize = if ch.any_bool() { 1 } else { 100 };
         let ids = [if ch.any_bool() { ME } else { P1 }, P2];
         let aff = [any_affinity(ch), any_affinity(ch)];
         let naddr: [usize; 2] = [ch.below(3) as usize, ch.below(3) as usize];
         let connected1 = ch.any_bool();
-        dialing_run(ch, cap, ids, aff, naddr, connected1, 1, false, false);
+        let limit: Option<usize> = match ch.below(4) { 0 => None, 1 => Some(0), 2 => Some(1), _ => Some(2) };
+        let unrelated = ch.any_bool();      // an unrelated peer holds a connection (and a slot of the limit)
+        if limit.is_some() && unrelated { cover(1); }
+        dialing_run(ch, cap, ids, aff, naddr, connected1, 1, false, false, limit, unrelated);
     }
     pub fn background_dialing_ticks(ch: &mut Chooser) { // @EOBL [C13] @BOUNDED every run of 4 connectivity checks over 2 High-affinity peers with 1..2 addresses each, cap 1 or 100, every dial in flight failing, succeeding or staying in flight, established connections possibly lost again, time advancing by 1s/10s/61s: never two concurrent dials to a peer, addresses rotate by CONSECUTIVE failure count, after k consecutive failures the next dial comes strictly later than noticed + min(60s, k x 10s), the cap on connections being established is respected, and at every check exactly min(eligible, free slots) dials are started (no eligible peer is left waiting while slots are free)
         let cap: usize = if ch.any_bool() { 1 } else { 100 };
         let naddr: [usize; 2] = [1 + ch.below(2) as usize, 1 + ch.below(2) as usize];
-        dialing_run(ch, cap, [P1, P2], [PeerAffinity::High, PeerAffinity::High], naddr, false, 4, false, false);
+        dialing_run(ch, cap, [P1, P2], [PeerAffinity::High, PeerAffinity::High], naddr, false, 4, false, false, None, false);
     }
     pub fn closed_connection_bookkeeping(ch: &mut Chooser) { // @EOBL [C09,C04] @BOUNDED every sequence of 3 operations (register connection 0 / register connection 1 through ConnectionManager::add_peer, explicit disconnect, exit of a running handler) over two connections of one peer, each of which may ALREADY have been ended by the remote side or the transport when the operation runs: after every step the event log replays to the listing, every listed connection has a running handler (the one whose exit reports its loss), and an explicit disconnect of a listed peer removes it at once and appends exactly LostPeer(peer, Requested)
         let config = Arc::new(Config { max_concurrent_outstanding_connecting_connections: Some(100), connection_backoff_ms: Some(10_000), max_connection_backoff_ms: Some(60_000), max_concurrent_connections: None });
@@ -454,13 +467,13 @@ pub mod harness {
         }
     }
     pub fn dial_races_inbound_connect(ch: &mut Chooser) { // @EOBL [C13,C06] @BOUNDED every run of 3 connectivity checks over 2 High-affinity peers (one address each, no cap) in which a peer that is being dialed may itself connect to us before that dial completes, the dial then failing, succeeding or staying in flight: the connection manager never panics (in particular every dial it started is answered to whoever waits for it), never dials a connected peer, and the back-off / rotation / one-dial-per-peer rules still hold
-        dialing_run(ch, 100, [P1, P2], [PeerAffinity::High, PeerAffinity::High], [1, 1], false, 3, true, false);
+        dialing_run(ch, 100, [P1, P2], [PeerAffinity::High, PeerAffinity::High], [1, 1], false, 3, true, false, None, false);
     }
     pub fn known_peers_change_during_dial(ch: &mut Chooser) { // @EOBL [C13] @BOUNDED every run of 3 connectivity checks over 2 High-affinity peers (one address each, no cap) in which, between checks, a known peer may be removed from the known-peer table and put back (as an application updating a peer does) while its dial fails, succeeds or stays in flight: a peer is never dialed while an earlier dial to it is still in flight, a peer that is not known is not dialed, and the back-off / rotation rules still hold
-        dialing_run(ch, 100, [P1, P2], [PeerAffinity::High, PeerAffinity::High], [1, 1], false, 3, false, true);
+        dialing_run(ch, 100, [P1, P2], [PeerAffinity::High, PeerAffinity::High], [1, 1], false, 3, false, true, None, false);
     }
-    fn dialing_run(ch: &mut Chooser, cap: usize, ids: [PeerId; 2], aff: [PeerAffinity; 2], naddr: [usize; 2], connected1: bool, ticks: usize, inbound_race: bool, churn: bool) {
-        let config = Arc::new(Config { max_concurrent_outstanding_connecting_connections: Some(cap), connection_backoff_ms: None, max_connection_backoff_ms: None, max_concurrent_connections: None });
+    fn dialing_run(ch: &mut Chooser, cap: usize, ids: [PeerId; 2], aff: [PeerAffinity; 2], naddr: [usize; 2], connected1: bool, ticks: usize, inbound_race: bool, churn: bool, limit: Option<usize>, unrelated: bool) {
+        let config = Arc::new(Config { max_concurrent_outstanding_connecting_connections: Some(cap), connection_backoff_ms: None, max_connection_backoff_ms: None, max_concurrent_connections: limit });
         let known = KnownPeers::new();
         let mut i = 0;
         while i < 2 {
@@ -471,6 +484,7 @@ pub mod harness {
         }
         let active = ActivePeers::new(8);
         if connected1 { let _ = active.add(&ME, conn(1, P2, ConnectionOrigin::Inbound)); }
+        if unrelated { let _ = active.add(&ME, conn(5, P3, ConnectionOrigin::Inbound)); }
         let mut cm = ConnectionManager {
             config, endpoint: Arc::new(Endpoint { id: ME }), mailbox: mpsc::Receiver { _t: std::marker::PhantomData },
             pending_connections: JoinSet::new(), connection_handlers: JoinSet::new(), pending_dials: HashMap::default(), dial_backoff_states: HashMap::default(),
